@@ -12,7 +12,9 @@
       - the FIT is a [list fit_entry] (what fit.GetEntries returns, header entry included);
       - the outcome of the three layout probes of CalcImageOffset (IFD BIOS region, coreboot
         FMAP "COREBOOT" area, bare BIOS region) is a [layout]; the length of the image is a
-        separate argument [n];
+        separate argument [n]; for images on which more than one probe answers the answers
+        of all three are the input ([probes]) and the ORDER in which CalcImageOffset asks
+        them is part of the model ([probe_layout]);
       - the CBFS directory is a [list cbfs_file].
     Hashes are not computed: where the code returns a digest the model returns the preimage. *)
 From CSS Require Import Lib.Base.
@@ -48,6 +50,30 @@ Definition calc_offset (l : layout) (n : Z) (addr : Z) : outcome Z :=
   | LBiosOnly => Ok (wrap64 (n - BASE + addr))   (* uint64(len(image)) - consts.BasePhysAddr + addr *)
   | LNone => Err 1
   end.
+
+(** The three probes in the order in which CalcImageOffset asks them.  Each probe has its own
+    answer, whatever the others say: an image can hold a flash descriptor AND a coreboot flash
+    map (a full coreboot image; the COREBOOT area need not end where the BIOS region ends, e.g.
+    a separate BOOTBLOCK area above the CBFS) and parses as a bare BIOS region besides.
+      [pr_ifd]  = GetRegion(image, RegionTypeBIOS): offset, size of the descriptor's BIOS region;
+      [pr_fmap] = getCorebootRegion(image): offset, size of the FMAP area "COREBOOT"
+                  ([None]: no FMAP signature, or an FMAP without such an area);
+      [pr_bios] = uefi.NewBIOSRegion(image) succeeded.
+    The first probe that answers decides; the later ones are not consulted. *)
+Record probes : Type := mkPR { pr_ifd : option (Z * Z); pr_fmap : option (Z * Z); pr_bios : bool }.
+
+Definition probe_layout (p : probes) : layout :=
+  match pr_ifd p with
+  | Some (off, size) => LIFD off size
+  | None =>
+      match pr_fmap p with
+      | Some (off, size) => LCoreboot off size
+      | None => if pr_bios p then LBiosOnly else LNone
+      end
+  end.
+
+Definition calc_image_offset (p : probes) (n : Z) (addr : Z) : outcome Z :=
+  calc_offset (probe_layout p) n addr.
 
 (** The address map of the property text: a region that ends at image offset [region_end]
     is mapped so that its end is at 4 GiB. *)
